@@ -225,6 +225,8 @@ class Sweep(object):
         self.first_text = []
         self.first_ctor = {}
         self.first_attrs = []
+        self.by_kw = None
+        self.unresolved = []
         self.loaded = None
 
     # ---- schema decisions, by id
@@ -429,6 +431,24 @@ class Sweep(object):
                     chk.fail('unchecked:text:%s' % V.EN[e], {'op': op, 'element': V.EN[e], 'check_grammar': False}, '%s(check_grammar=False): %s' % (op, o))
         chk.count('text_calls', 8 * V.n)
 
+    def resolve_by_get(self, e, kw):
+        """which attribute does the keyword stand for on element e, as the library itself resolves it in getAttribute()"""
+        V = self.V
+        if self.by_kw is None:
+            self.by_kw = {}
+            for a, q in enumerate(V.G.attrs.items):
+                self.by_kw.setdefault(tg.kw_of(q[1]), []).append(a)
+        hits = []
+        for a in self.by_kw.get(kw, []):
+            el = self.Element(qname=V.G.elems.items[e], check_grammar=False)
+            el.attributes[V.G.attrs.items[a]] = u'probe-c06'
+            try:
+                if el.getAttribute(kw) == u'probe-c06':
+                    hits.append(a)
+            except Exception:
+                pass
+        return str(hits[0]) if len(hits) == 1 else 'value-refused'
+
     # ---- setAttribute by keyword
     def good_value(self, attr_q, el):
         key = (attr_q, el.qname)
@@ -486,8 +506,12 @@ class Sweep(object):
                     r = 'A'           # the class is the protocol, not the message (value converters raise ValueError only)
                 except ValueError as ex:
                     # the name was accepted, the value refused (C15's business); which attribute it was cannot be observed
+                    # Observed through a keyword-free route: store a probe under each qualified name whose local name gives this
+                    # keyword and ask the library which one getAttribute(keyword) reads - its own resolution, no model involved.
                     chk.count('setAttribute_value_refused')
-                    r = m[k] if m[k].isdigit() else 'value-refused'
+                    r = self.resolve_by_get(e, kw)
+                    if r == 'value-refused':
+                        self.unresolved.append('%s@%s' % (V.EN[e], kw))
                 except Exception as ex:
                     r = 'X' + type(ex).__name__
                 chk.corr()
@@ -509,8 +533,8 @@ class Sweep(object):
                     r2 = 'A'
                 except ValueError as ex:
                     # ValueError: either the keyword is not listed (list.index / an explicit raise) or the value was refused;
-                    # the value is one the resolved attribute accepts, so the model's answer tells which
-                    r2 = mf[k] if (mf[k].isdigit() or mf[k] == 'V') else 'value-refused'
+                    # the checked call above OBSERVED whether the keyword is listed: then the value was refused, else list.index raised
+                    r2 = r if r.isdigit() else ('V' if r == 'A' else 'value-refused')
                 except Exception as ex:
                     r2 = 'X' + type(ex).__name__
                 try:
@@ -523,7 +547,7 @@ class Sweep(object):
                 except AttributeError:
                     r3 = 'A'
                 except ValueError:
-                    r3 = m[k] if m[k].isdigit() else 'value-refused'
+                    r3 = self.resolve_by_get(e, kw)
                 except Exception as ex:
                     r3 = 'X' + type(ex).__name__
                 chk.corr(2)
@@ -558,6 +582,8 @@ class Sweep(object):
                     self.report('attrs', e, a, 'the schema permits %s on <%s>; setAttribute(%r) raises AttributeError' % (V.AN[a], V.EN[e], KN[kw_of_attr[a]]),
                                 {'op': 'setAttribute', 'element': V.EN[e], 'keyword': KN[kw_of_attr[a]]})
         chk.count('values_without_accepted_candidate', sum(1 for v in self.values.values() if v is None))
+        if self.unresolved:
+            chk.notes.append('setAttribute accepted the keyword but no probe value, and getAttribute() did not single out the attribute: %s' % ', '.join(self.unresolved[:20]))
 
     # ---- constructor
     def constructors(self):
@@ -819,7 +845,7 @@ class Sweep(object):
                 # the function name is the element name: prefix = module, CamelCase(local) = function
                 en = V.EN[got]
                 pre, _, local = en.partition(':')
-                if fn.lower() != tg.kw_of(local) or pre != mn:
+                if en.startswith('{') or fn.lower() != tg.kw_of(local) or pre != mn:
                     if not excepted(V, 'factory', mn + '.' + fn):
                         chk.fail('factory-name:%s.%s' % (mn, fn), {'op': 'factory', 'factory': mn + '.' + fn}, 'odf.%s.%s() produces <%s>' % (mn, fn, en))
             chk.count('factory_calls')
@@ -834,6 +860,127 @@ class Sweep(object):
 
 
 # ---------------------------------------------------------------------------------------------------------------------
+def fallback_sweep(chk, why):
+    """The translator could not produce the Lean inputs (broken obligation, already recorded).  The failing-input search
+    still runs: the real API, exhaustively, against the independent Python reading of the .rng files - elements and
+    attributes are made from the SCHEMA's (namespace URI, local name) pairs with Element(qname=..., check_grammar=False),
+    so nothing here depends on the translator, the Lean model or odf.namespaces."""
+    import importlib
+    from odf.element import Element, IllegalChild, IllegalText
+    class _G(object):
+        pass
+    G = _G(); G.rng_docs = tg.read_schemas(common.REPO)
+    so = SecondOpinion(G)
+    prefix = {}
+    for rel, root, nsmap in G.rng_docs:
+        for pfx, uri in nsmap.items():
+            prefix.setdefault(uri, pfx)
+    name = lambda q: ('%s:%s' % (prefix[q[0]], q[1])) if q[0] in prefix else '{%s}%s' % q
+    exc_rows, prefixes = [], ['db:']
+    try:
+        drv = chk.driver('drv_grammar')           # only for the hand-written exception lists (static data of the binary)
+        exc_rows = [tuple(w.split('|')) for w in drv.ask('exceptions').split()[1:]]
+        prefixes = drv.ask('prefixes').split()[1:]
+    except Exception:
+        chk.notes.append('exception lists unavailable (driver not built): only the db: prefix is excepted in the fallback sweep')
+    def excepted_(kind, e, x=''):
+        return any(e.startswith(p) for p in prefixes) or any(k == kind and en == e and (it == x or it == '*') for k, en, it in exc_rows)
+    budget = {}
+    def report(kind, e, x, detail, case):
+        en, xn = name(e), ('' if x is None else ('*' if x == '*' else name(x)))
+        if excepted_(kind, en, xn):
+            return
+        sig = sig_of(kind, en, xn)
+        if not any(k['sig'] == sig for k in chk.known):
+            budget[kind] = budget.get(kind, 0) + 1
+            if budget[kind] > 8:
+                chk.count('further_unlisted_rows_' + kind); return
+        chk.fail(sig, case, detail)
+    els = sorted(so.decls)
+    sem = dict((q, so.element(q)) for q in els)
+    from odf.attrconverters import AttrConverters
+    conv = AttrConverters()
+    def good(aq, el):
+        for v in VALUE_CANDIDATES:
+            try:
+                conv.convert(aq, v, el); return v
+            except Exception:
+                continue
+        return None
+    for p in els:
+        me, mt, ma, must = sem[p]
+        try:
+            Element(qname=p, check_grammar=False)
+        except Exception as ex:
+            chk.fail('construct:%s' % name(p), {'op': 'Element()', 'element': name(p), 'given': [], 'check_grammar': False}, 'Element(qname=<%s>, check_grammar=False) raises %s' % (name(p), type(ex).__name__))
+            continue
+        chk.case(('fallback', p), nontrivial=True)
+        if '*' not in me:
+            for c in els:
+                try:
+                    Element(qname=p, check_grammar=False).addElement(Element(qname=c, check_grammar=False)); got = True
+                except IllegalChild:
+                    got = False
+                except Exception:
+                    continue
+                chk.count('fallback_addElement_calls')
+                if got != (c in me):
+                    report('children', p, c, 'addElement(%s) on <%s>: %s; schema %s (elements made from the schema\'s own qualified names)' % (
+                        name(c), name(p), 'accepted' if got else 'IllegalChild', 'permits' if c in me else 'does not permit'),
+                        {'op': 'addElement', 'parent': name(p), 'child': name(c), 'filled': False})
+        try:
+            Element(qname=p, check_grammar=False).addText(u'x'); got = True
+        except IllegalText:
+            got = False
+        if got != mt:
+            report('text', p, None, 'addText on <%s>: %s; schema %s text' % (name(p), 'accepted' if got else 'IllegalText', 'permits' if mt else 'does not permit'), {'op': 'addText', 'element': name(p)})
+        for a in sorted(x for x in ma if x != '*'):
+            el = Element(qname=p, check_grammar=False)
+            try:
+                el.setAttribute(tg.kw_of(a[1]), good(a, el) or u'1'); stored = list(el.attributes)
+            except AttributeError:
+                report('attrs', p, a, 'the schema permits %s on <%s>; setAttribute(%r) raises AttributeError' % (name(a), name(p), tg.kw_of(a[1])), {'op': 'setAttribute', 'element': name(p), 'keyword': tg.kw_of(a[1])})
+                continue
+            except Exception:
+                continue
+            for b in stored:
+                if b not in ma and '*' not in ma:
+                    report('attrs', p, b, 'setAttribute(%r) on <%s> stored %s, which the schema does not permit there' % (tg.kw_of(a[1]), name(p), name(b)), {'op': 'setAttribute', 'element': name(p), 'keyword': tg.kw_of(a[1])})
+        probe = Element(qname=p, check_grammar=False)
+        for r in sorted(must):
+            qa = dict((a, good(a, probe)) for a in must if a != r)
+            if any(v is None for v in qa.values()):
+                continue
+            try:
+                Element(qname=p, qattributes=qa); failed = False
+            except AttributeError:
+                failed = True
+            except Exception:
+                continue
+            if not failed:
+                report('required', p, r, 'Element(<%s>) without %s: ok; the schema requires it' % (name(p), name(r)), {'op': 'Element()', 'element': name(p), 'left_out': name(r)})
+    produced = set()
+    for mn in tg.FACTORY_MODULES:
+        try:
+            mod = importlib.import_module('odf.' + mn)
+        except Exception:
+            continue
+        for fn in sorted(dir(mod)):
+            f = getattr(mod, fn)
+            if fn[:1].isupper() and callable(f) and not isinstance(f, type) and getattr(f, '__module__', None) == mod.__name__:
+                try:
+                    q = tuple(f(check_grammar=False).qname)
+                except Exception:
+                    continue
+                produced.add(q)
+                if q not in sem and q[0] not in prefix and budget.setdefault('fname', 0) < 8:       # a namespace the schemas do not know
+                    budget['fname'] += 1
+                    chk.fail('factory-name:%s.%s' % (mn, fn), {'op': 'factory', 'factory': mn + '.' + fn}, 'odf.%s.%s() produces <%s>, in a namespace the schemas do not declare' % (mn, fn, name(q)))
+    for p in els:
+        if p not in produced:
+            report('factory', p, None, 'no factory function yields <%s> when called as f(check_grammar=False)' % name(p), {'op': 'factory', 'element': name(p)})
+
+
 def load_sample_packages():
     """build a package that contains legal content AND schema-illegal combinations (attached with check_grammar=False, which
     is also how load() attaches them), save it, load() it; load the shipped example documents as well"""
@@ -877,6 +1024,13 @@ def run(chk, replay=None):
     except Exception as e:
         # a schema construct the translator does not know, or odf/grammar.py / a factory module that no longer imports
         chk.obligation('translator', False, 'cannot translate: %s: %s' % (type(e).__name__, e), kind='translator')
+        if replay is None:
+            try:
+                fallback_sweep(chk, e)
+            except common.InfraError:
+                raise
+            except Exception as e2:
+                chk.notes.append('fallback sweep stopped: %s: %s' % (type(e2).__name__, e2))
         return chk.finish()
     tg.write(chk, G)
     if replay is None:
